@@ -37,6 +37,11 @@ def check_log_checksums(ctx):
 
 
 def check(ctx):
+    c12.check_status_not_overwritten(ctx)   # a read error is not replaced by the status of a later, healthy child
+    from . import tablefmt as _tf2
+    _tf2.check_twoiter_status(ctx)   # an error met while skipping blocks stays visible
+    from . import c02 as _c02
+    _c02.check_env_read(ctx)      # a read error is not mistaken for the end of the data
     tablefmt.check_read_block(ctx)
     tablefmt.check_verification_switched_on(ctx)
     tablefmt.check_iterator_statuses(ctx)
